@@ -217,3 +217,211 @@ Example C05_ex_merge_order :
   map (map pid) (merge_sets [[ex_p 3 20 30; ex_p 5 40 50]; [ex_p 1 0 10; ex_p 5 40 50]]) = [[1; 3; 5]] /\
   map (map pid) (merge_sets [[ex_p 1 0 10; ex_p 5 40 50]; [ex_p 3 20 30; ex_p 5 40 50]]) = [[1; 3; 5]].
 Proof. split; vm_compute; reflexivity. Qed.
+
+(* ====================================================================================================== *)
+(* second deepening pass                                                                                   *)
+(* ====================================================================================================== *)
+
+(* ---- the final coverage assertion never fires ---- *)
+(* every supplied protocluster is (by id) a member of a candidate formed by the body of the function, i.e.
+   BEFORE the code's own final check - proved through all passes (hybrids, the de-duplication table with
+   promotion, interleaved incl. the origin walk, neighbouring, final singles), any wrap point *)
+Theorem C05_formation_covers : forall protos w cands, formation_body protos w = Ok cands ->
+  forall p, In p protos -> exists c, In c cands /\ inS (pid p) (cmem c).
+Proof. exact Cover.formation_body_covers. Qed.
+Print Assumptions C05_formation_covers.
+
+(* hence, for distinct protoclusters, `assert len(assigned) == len(protoclusters)` cannot fail: whenever the
+   passes themselves complete, create_candidates_from_protoclusters returns their sorted result *)
+Theorem C05_coverage_assert_never_fires : forall protos w cands, protos <> [] -> NoDup (map pid protos) ->
+  formation_body protos w = Ok cands -> create_candidates protos w = Ok (sort_by lt_cc cands).
+Proof. exact Cover.coverage_assert_never_fires. Qed.
+Print Assumptions C05_coverage_assert_never_fires.
+
+(* the function fails exactly when one of its passes fails (never because of the final assertion) *)
+Theorem C05_create_candidates_is_formation : forall protos w, protos <> [] -> NoDup (map pid protos) ->
+  create_candidates protos w = match formation_body protos w with
+                               | Ok cands => Ok (sort_by lt_cc cands) | Err k => Err k end.
+Proof. exact Cover.create_candidates_is_formation. Qed.
+Print Assumptions C05_create_candidates_is_formation.
+
+(* ---- the meaning of NEIGHBOURING and INTERLEAVED ---- *)
+(* find_interleaved_v / find_neighbouring_v / create_candidates_v carry two switches for the two proposed
+   repairs (nw: scan all candidates instead of the bisect window; allp: compare all singles with each other);
+   with both switches off they ARE the model of the code *)
+Theorem C05_variants_are_the_model :
+  (forall clusters cands w, find_interleaved_v false clusters cands w = find_interleaved clusters cands w) /\
+  (forall singles cands, find_neighbouring_v false false singles cands = find_neighbouring singles cands) /\
+  (forall protos w, formation_body_v false false protos w = formation_body protos w) /\
+  (forall protos w, create_candidates_v false false protos w = create_candidates protos w).
+Proof. exact Kinds.variants_are_the_model. Qed.
+Print Assumptions C05_variants_are_the_model.
+
+(* soundness of neighbouring, for the code as it is (and with either repair), no hypothesis, linear and circular:
+   every neighbouring group is built by uniting, along shared members, sets each of which joins two units
+   (candidate/candidate, candidate/protocluster, protocluster/protocluster) whose full extents overlap -
+   nothing is grouped that is not linked by a chain of overlapping extents *)
+Theorem C05_neighbouring_sound : forall nw allp singles cands g,
+  In g (find_neighbouring_v nw allp singles cands) ->
+  exists G h0, (forall x, In x G -> Kinds.nb_link singles cands x) /\ built G h0 /\ forall i, inS i g <-> inS i h0.
+Proof. exact Kinds.neighbouring_sound. Qed.
+Print Assumptions C05_neighbouring_sound.
+
+(* completeness of neighbouring WITH both proposed repairs, linear and circular: any two units whose extents
+   overlap end in one neighbouring group (with C05_merge_sets_components: the groups are the transitive groups
+   of overlapping extents).  For the code as it is this is false: C05_window_refuted, C05_neighbouring_refuted *)
+Theorem C05_neighbouring_repaired_complete_cc : forall singles cands a b,
+  In a cands -> In b cands -> a <> b -> cmem a <> [] -> overlap (cloc a) (cloc b) = true ->
+  exists g, In g (find_neighbouring_v true true singles cands) /\ subsetP (cmem a) g /\ subsetP (cmem b) g.
+Proof. exact Kinds.neighbouring_repaired_complete_cc. Qed.
+Print Assumptions C05_neighbouring_repaired_complete_cc.
+Theorem C05_neighbouring_repaired_complete_cs : forall singles cands c s,
+  In c cands -> In s singles -> overlap (ploc s) (cloc c) = true ->
+  exists g, In g (find_neighbouring_v true true singles cands) /\ subsetP (cmem c) g /\ inS (pid s) g.
+Proof. exact Kinds.neighbouring_repaired_complete_cs. Qed.
+Print Assumptions C05_neighbouring_repaired_complete_cs.
+Theorem C05_neighbouring_repaired_complete_ss : forall singles cands s t,
+  In s singles -> In t singles -> s <> t -> overlap (ploc s) (ploc t) = true ->
+  exists g, In g (find_neighbouring_v true true singles cands) /\ inS (pid s) g /\ inS (pid t) g.
+Proof. exact Kinds.neighbouring_repaired_complete_ss. Qed.
+Print Assumptions C05_neighbouring_repaired_complete_ss.
+
+(* interleaved on linear records (no wrap point): soundness for the code as it is - every interleaved group is
+   built from sets each joining two units whose CORES overlap (a candidate's core = connect_locations of its
+   members' cores) *)
+Theorem C05_interleaved_sound_linear : forall nw clusters cands groups un,
+  find_interleaved_v nw clusters cands None = Ok (groups, un) ->
+  forall g, In g groups ->
+  exists G h0, (forall x, In x G -> Kinds.il_link None clusters cands x) /\ built G h0 /\ forall i, inS i g <-> inS i h0.
+Proof. exact Kinds.interleaved_sound. Qed.
+Print Assumptions C05_interleaved_sound_linear.
+
+(* completeness, linear: candidate/candidate and protocluster/protocluster pairs with overlapping cores always
+   end in one interleaved group, also in the code as it is (the early break of the core-sorted inner loop is
+   harmless: proved from the sortedness of sort_by) ... *)
+Theorem C05_interleaved_complete_cc_linear : forall nw clusters cands groups un a b ka kb,
+  find_interleaved_v nw clusters cands None = Ok (groups, un) ->
+  In a cands -> In b cands -> a <> b -> ccore None a = Ok ka -> ccore None b = Ok kb -> overlap ka kb = true ->
+  exists g, In g groups /\ subsetP (cmem a) g /\ subsetP (cmem b) g.
+Proof. exact Kinds.interleaved_complete_cc. Qed.
+Print Assumptions C05_interleaved_complete_cc_linear.
+Theorem C05_interleaved_complete_pp_linear : forall nw clusters cands groups un x y,
+  find_interleaved_v nw clusters cands None = Ok (groups, un) ->
+  In x clusters -> In y clusters -> x <> y ->
+  (forall p, In p (pcore x) -> ps p < pe p) -> (forall p, In p (pcore y) -> ps p < pe p) ->
+  overlap (pcore x) (pcore y) = true ->
+  exists g, In g groups /\ inS (pid x) g /\ inS (pid y) g.
+Proof. exact Kinds.interleaved_complete_pp. Qed.
+Print Assumptions C05_interleaved_complete_pp_linear.
+(* ... candidate/protocluster pairs only with the window repair (C05_window_refuted for the code as it is) *)
+Theorem C05_interleaved_repaired_complete_cp_linear : forall clusters cands groups un c k cl,
+  find_interleaved_v true clusters cands None = Ok (groups, un) ->
+  In c cands -> ccore None c = Ok k -> In cl clusters -> overlap k (pcore cl) = true ->
+  exists g, In g groups /\ subsetP (cmem c) g /\ inS (pid cl) g.
+Proof. exact Kinds.interleaved_repaired_complete_cp. Qed.
+Print Assumptions C05_interleaved_repaired_complete_cp_linear.
+
+(* C05_window decided: the bisect window DOES miss overlapping candidates on linear records (design-time row 33,
+   finding candidate_index_window).  Interleaved: the cores of protoclusters 0 and 6 overlap, no INTERLEAVED or
+   HYBRID candidate of the result holds both; with the window repair an INTERLEAVED candidate does; the decidable
+   kind clauses fail on the result and hold on the repaired one *)
+Theorem C05_window_refuted :
+  exists out rep,
+    create_candidates wi_protos None = Ok out /\ create_candidates_v true false wi_protos None = Ok rep /\
+    rel_I (kw_p 0 0 1000 100 900 [0]) (kw_p 6 880 1100 890 950 []) = true /\
+    together [K_INTERLEAVED; K_HYBRID] (kw_p 0 0 1000 100 900 [0]) (kw_p 6 880 1100 890 950 []) out = false /\
+    together [K_INTERLEAVED] (kw_p 0 0 1000 100 900 [0]) (kw_p 6 880 1100 890 950 []) rep = true /\
+    kinds_ok wi_protos out = false /\ kinds_ok wi_protos rep = true.
+Proof. exact window_interleaved_witness. Qed.
+Print Assumptions C05_window_refuted.
+(* the same for neighbouring: protocluster 6 lies inside the extent of hybrid {2,3}, no candidate holds 6 and 2 *)
+Theorem C05_window_neighbouring_refuted :
+  exists out rep,
+    create_candidates wn_protos None = Ok out /\ create_candidates_v true false wn_protos None = Ok rep /\
+    rel_N (kw_p 2 6 100 30 32 [1]) (kw_p 6 50 60 52 55 []) = true /\
+    together all_kinds (kw_p 2 6 100 30 32 [1]) (kw_p 6 50 60 52 55 []) out = false /\
+    together all_kinds (kw_p 2 6 100 30 32 [1]) (kw_p 6 50 60 52 55 []) rep = true /\
+    kinds_ok wn_protos out = false /\ kinds_ok wn_protos rep = true.
+Proof. exact window_neighbouring_witness. Qed.
+Print Assumptions C05_window_neighbouring_refuted.
+(* "neighbouring candidates are the transitive groups of overlapping extents" is false for the code as it is even
+   without the window (finding neighbouring_singles_not_linked): 4 and 5 overlap, each also overlaps a hybrid, and
+   they end in two different neighbouring candidates {0,1,4} and {5,2,3} *)
+Theorem C05_neighbouring_refuted :
+  exists out rep,
+    create_candidates ws_protos None = Ok out /\ create_candidates_v false true ws_protos None = Ok rep /\
+    rel_N (kw_p 4 5 30 12 14 []) (kw_p 5 25 50 31 35 []) = true /\
+    together all_kinds (kw_p 4 5 30 12 14 []) (kw_p 5 25 50 31 35 []) out = false /\
+    together [K_NEIGHBOURING] (kw_p 4 5 30 12 14 []) (kw_p 5 25 50 31 35 []) rep = true /\
+    map (fun c => (ckind c, map pid (cmem c))) (filter (fun c => ckind c =? K_NEIGHBOURING) out) = [(K_NEIGHBOURING, [0; 1; 4]); (K_NEIGHBOURING, [5; 2; 3])] /\
+    kinds_ok ws_protos out = false /\ kinds_ok ws_protos rep = true.
+Proof. exact singles_not_linked_witness. Qed.
+Print Assumptions C05_neighbouring_refuted.
+
+(* ---- order independence, end to end ---- *)
+(* the result does not depend on the order in which the protoclusters are supplied whenever CDSCollection.__lt__
+   has no ties among them and is transitive on them (then sorted() has one possible result) ... *)
+Theorem C05_order_independent_partial : forall protos protos' w,
+  Permutation protos protos' -> Order.no_tie protos -> Order.lt_trans protos ->
+  create_candidates protos w = create_candidates protos' w.
+Proof. exact Order.create_candidates_order_independent. Qed.
+Print Assumptions C05_order_independent_partial.
+(* ... in particular on linear records with single-part protoclusters of pairwise different coordinates (any
+   products, cores, defining genes, strands) *)
+Theorem C05_order_independent_linear : forall protos protos' w,
+  Permutation protos protos' ->
+  (forall p, In p protos -> Order.single_lin p) ->
+  (forall a b qa qb, In a protos -> In b protos -> ploc a = [qa] -> ploc b = [qb] ->
+                     ps qa = ps qb -> pe qa = pe qb -> a = b) ->
+  create_candidates protos w = create_candidates protos' w.
+Proof. exact Order.create_candidates_order_independent_linear. Qed.
+Print Assumptions C05_order_independent_linear.
+(* "no ties" alone is not enough in the model: with an (artificial) location that repeats a part __lt__ is cyclic
+   and two supply orders give 4 and 3 candidates *)
+Theorem C05_order_independent_no_tie_alone_refuted :
+  Order.no_tie Order.ce_L1 /\ Permutation Order.ce_L1 Order.ce_L2 /\
+  (exists o1 o2, create_candidates Order.ce_L1 None = Ok o1 /\ create_candidates Order.ce_L2 None = Ok o2 /\
+                 length o1 = 4%nat /\ length o2 = 3%nat) /\
+  create_candidates Order.ce_L1 None <> create_candidates Order.ce_L2 None.
+Proof. exact Order.no_tie_alone_not_enough_end_to_end. Qed.
+Print Assumptions C05_order_independent_no_tie_alone_refuted.
+
+(* ---- C05_unique in full, linear records ---- *)
+(* no two candidates (at different positions of the returned list) have the same location and the same members:
+   the table keys are the candidates' own coordinates also after a promotion, a single is never a duplicate of a
+   table candidate, two singles differ *)
+Theorem C05_unique_linear : forall protos out, create_candidates protos None = Ok out ->
+  (forall p, In p protos -> exists q, ploc p = [q] /\ ps q < pe q) ->
+  forall c1 c2 l1 l2 l3, out = l1 ++ c1 :: l2 ++ c2 :: l3 ->
+    ~ (cloc c1 = cloc c2 /\ (forall i, inS i (cmem c1) <-> inS i (cmem c2))).
+Proof. exact Order.unique_linear. Qed.
+Print Assumptions C05_unique_linear.
+
+(* ---- non-vacuity of the new implications ---- *)
+(* three single-part protoclusters with different coordinates: guards of C05_order_independent_* and of
+   C05_unique_linear hold, the formation returns 4 candidates *)
+Example C05_ex_order_guard : Order.no_tie Order.nt_protos /\
+  (exists out, create_candidates Order.nt_protos None = Ok out /\ length out = 4%nat).
+Proof. split; [exact Order.nt_protos_no_tie|exact Order.nt_protos_runs]. Qed.
+(* C05_coverage_assert_never_fires: the body completes on the four protoclusters of C05_ex_formation *)
+Example C05_ex_body : exists cands, formation_body ex_protos None = Ok cands /\ length cands = 3%nat.
+Proof.
+  destruct (formation_body ex_protos None) as [c|k] eqn:E; vm_compute in E; [|discriminate E].
+  inversion E. eexists. split; [reflexivity|reflexivity].
+Qed.
+(* neighbouring/interleaved statements: the witness inputs above run through both variants (see C05_window_refuted) *)
+
+(* "the outcome does not depend on the supply order" is FALSE for the code as it is, already on a linear record with
+   pairwise distinct (coordinates, product, core) TRIPLES: protoclusters 2 and 3 share coordinates and core and differ
+   in product; sorted() keeps them in supply order, that order decides which of two same-coordinate hybrid groups
+   build_candidates sees last, and only the later group's members get an extra single (finding
+   supply_order_same_key_groups; C05_build_candidates_order_independent_refuted is the function-level mechanism).
+   The positive statements above (C05_order_independent_partial / _linear) need pairwise different coordinates *)
+Theorem C05_order_independent_refuted :
+  Permutation [od_0; od_1; od_2; od_3] [od_0; od_1; od_3; od_2] /\
+  exists o1 o2, create_candidates [od_0; od_1; od_2; od_3] None = Ok o1 /\
+                create_candidates [od_0; od_1; od_3; od_2] None = Ok o2 /\
+    map (fun c => (ckind c, map pid (cmem c))) o1 = [(K_HYBRID, [3; 2; 1; 0]); (K_SINGLE, [1])] /\
+    map (fun c => (ckind c, map pid (cmem c))) o2 = [(K_HYBRID, [3; 2; 1; 0]); (K_SINGLE, [0])].
+Proof. exact order_dependent_witness. Qed.
+Print Assumptions C05_order_independent_refuted.
